@@ -1,7 +1,7 @@
 (* Props_C10.v — C10: rate tests flag a point by its change from the previous point per elapsed second.
    Only statements, `exact <lemma>` and Print Assumptions.
    (statements written out by tools/mk_props.py from the lemmas they restate) *)
-From IoosQc Require Import Base Generated Rate RateProofs.
+From IoosQc Require Import Base Generated Rate RateProofs Skel SkelProofs.
 
 
 (* rate_of_change_test: for all series and all strictly increasing whole-second time axes (regular or not), all missing patterns and every threshold >= 0, the operational model equals the per-point specification; mismatched lengths are rejected on both sides *)
@@ -147,6 +147,15 @@ Theorem C10_roc_negative_threshold_refuted :
            whole_increasing ts /\ length xs = length ts /\ roc_model thr xs ts <> roc_spec thr xs ts.
 Proof. exact (@roc_refuted_negative_threshold). Qed.
 Print Assumptions C10_roc_negative_threshold_refuted.
+
+(* TRANSLATOR TIE: the flag-assignment skeleton generated from the CURRENT source of rate_of_change_test (Generated.skel_rate_of_change_test: comparison operators, flag constants, order, guards), run in the model's environment, yields exactly the model's flags *)
+Theorem C10_source_skeleton :
+  forall (thr : Q) (xs : list obs) (ts : list Z),
+         length xs = length ts ->
+         roc_model thr xs ts =
+         Flags (run_steps (env_roc thr xs ts) skel_rate_of_change_test (all_flags (length xs) GOOD)).
+Proof. exact (@skel_roc). Qed.
+Print Assumptions C10_source_skeleton.
 
 Theorem C10_assign_order :
   assign_order_rate_of_change_test = [SUSPECT; MISSING] /\ assign_order_speed_test = [MISSING; UNKNOWN; SUSPECT; FAIL; UNKNOWN; MISSING].
